@@ -201,8 +201,9 @@ def align_exponents(*polys: PolyLike) -> Tuple[ndpoly, ...]:
 
     """
     polys_ = [numpoly.aspolynomial(poly) for poly in polys]
-    if not all(polys_[0].names == poly.names for poly in polys_):
-        polys_ = list(align_indeterminants(*polys_))
+    # always: besides making the names common this puts them in index order,
+    # which every ordering-based function (comparisons, lead_*, str) relies on
+    polys_ = list(align_indeterminants(*polys_))
 
     global_exponents = numpy.vstack([poly.exponents for poly in polys_])
     global_exponents = numpy.unique(global_exponents, axis=0).tolist()
